@@ -2,8 +2,10 @@ package fakeredis
 
 import (
 	"fmt"
+	"sort"
 	"strconv"
 	"strings"
+	"sync/atomic"
 )
 
 // ClusterState is shared by the node Servers of one fake cluster.  All access
@@ -22,6 +24,92 @@ type ClusterState struct {
 	routed  int
 	// Violations collects oracle-side observations (cross-slot MULTI etc.)
 	CrossSlotTxns int
+	// GSeq orders the requests of all nodes; GCrashAfter >= 0: the whole cluster dies once GSeq passes it
+	GSeq        atomic.Int64
+	// GCount, when set, selects the requests that count towards the crash limit (counter GW); else all do (GSeq)
+	GCount func(name string) bool
+	GW     atomic.Int64
+	GCrashAfter atomic.Int64
+	GCrashed    atomic.Bool
+}
+
+// NewCluster starts n node servers sharing one cluster state; slots are split evenly.
+func NewCluster(n int) (*ClusterState, error) {
+	cs := &ClusterState{Migrating: map[int]int{}, Importing: map[int]int{}}
+	cs.GCrashAfter.Store(-1)
+	for i := 0; i < n; i++ {
+		s := New()
+		s.Cluster, s.NodeID, s.KeepRaw = cs, i, true
+		if _, err := s.Start(); err != nil {
+			return nil, err
+		}
+		cs.Nodes = append(cs.Nodes, s)
+	}
+	for sl := 0; sl < 16384; sl++ {
+		cs.Owner[sl] = sl * n / 16384
+	}
+	return cs, nil
+}
+
+func (cs *ClusterState) Close() {
+	for _, n := range cs.Nodes {
+		n.Close()
+	}
+}
+
+// Addrs returns the node addresses.
+func (cs *ClusterState) Addrs() []string {
+	var out []string
+	for _, n := range cs.Nodes {
+		out = append(out, n.Addr())
+	}
+	return out
+}
+
+// CrashAll closes every connection of every node.
+func (cs *ClusterState) CrashAll() {
+	cs.GCrashed.Store(true)
+	for _, n := range cs.Nodes {
+		n.Crash()
+	}
+}
+
+func (cs *ClusterState) Revive() {
+	cs.GCrashAfter.Store(-1)
+	cs.GCrashed.Store(false)
+	for _, n := range cs.Nodes {
+		n.Revive()
+	}
+}
+
+func (cs *ClusterState) ConnCount() int {
+	c := 0
+	for _, n := range cs.Nodes {
+		c += n.ConnCount()
+	}
+	return c
+}
+
+// RawMerged returns the raw requests of all nodes in global arrival order; Conn ids are made unique per node.
+func (cs *ClusterState) RawMerged() []Entry {
+	var out []Entry
+	for i, n := range cs.Nodes {
+		for _, e := range n.RawCopy() {
+			e.Conn += i * 100000
+			out = append(out, e)
+		}
+	}
+	sort.Slice(out, func(i, j int) bool { return out[i].Seq < out[j].Seq })
+	return out
+}
+
+// LogMerged returns the executed commands of all nodes (order within a node only).
+func (cs *ClusterState) LogMerged() []Entry {
+	var out []Entry
+	for _, n := range cs.Nodes {
+		out = append(out, n.LogCopy()...)
+	}
+	return out
 }
 
 // Independent HASH_SLOT (CRC16/XMODEM bitwise, first '{' ... first following '}').
